@@ -88,10 +88,34 @@ IsPureCycle(G, c) == LET J == JoinSet(G) IN
 
 -----------------------------------------------------------------------------
 (* sequences *)
-ComplBase(ch) == CASE ch = "A" -> "T" [] ch = "T" -> "A" [] ch = "C" -> "G" [] ch = "G" -> "C"
-               [] ch = "a" -> "t" [] ch = "t" -> "a" [] ch = "c" -> "g" [] ch = "g" -> "c"
-               [] OTHER -> ch
+\* Watson-Crick complement over the whole IUPAC nucleotide alphabet (Cornish-Bowden 1985:
+\* a code stands for a set of bases, its complement for the set of their complements:
+\* R = {A,G} <-> Y = {C,T};  K = {G,T} <-> M = {A,C};  B = not A <-> V = not T;
+\* D = not C <-> H = not G;  S = {C,G}, W = {A,T}, N = any base are their own complements);
+\* the case of a letter is kept.  (U is left out: its complement A does not lead back to it.)
+ComplUpper == [A |-> "T", T |-> "A", C |-> "G", G |-> "C", R |-> "Y", Y |-> "R", K |-> "M", M |-> "K",
+               B |-> "V", V |-> "B", D |-> "H", H |-> "D", S |-> "S", W |-> "W", N |-> "N"]
+ComplLower == [a |-> "t", t |-> "a", c |-> "g", g |-> "c", r |-> "y", y |-> "r", k |-> "m", m |-> "k",
+               b |-> "v", v |-> "b", d |-> "h", h |-> "d", s |-> "s", w |-> "w", n |-> "n"]
+ComplBase(ch) == IF ch \in DOMAIN ComplUpper THEN ComplUpper[ch]
+                 ELSE IF ch \in DOMAIN ComplLower THEN ComplLower[ch] ELSE ch
 RC(s) == [i \in 1..Len(s) |-> ComplBase(s[Len(s) + 1 - i])]
+\* the table follows from the meaning of the codes (checked once by TLC, MC_LinearPaths)
+IupacSet == [A |-> {"A"}, C |-> {"C"}, G |-> {"G"}, T |-> {"T"},
+             R |-> {"A", "G"}, Y |-> {"C", "T"}, K |-> {"G", "T"}, M |-> {"A", "C"},
+             S |-> {"C", "G"}, W |-> {"A", "T"},
+             B |-> {"C", "G", "T"}, D |-> {"A", "G", "T"}, H |-> {"A", "C", "T"}, V |-> {"A", "C", "G"},
+             N |-> {"A", "C", "G", "T"}]
+LowerOf == [A |-> "a", C |-> "c", G |-> "g", T |-> "t", R |-> "r", Y |-> "y", K |-> "k", M |-> "m",
+            S |-> "s", W |-> "w", B |-> "b", D |-> "d", H |-> "h", V |-> "v", N |-> "n"]
+ComplementLaw ==
+  /\ DOMAIN ComplUpper = DOMAIN IupacSet /\ DOMAIN LowerOf = DOMAIN IupacSet
+  /\ DOMAIN ComplLower = {LowerOf[x] : x \in DOMAIN IupacSet}
+  /\ \A x \in DOMAIN IupacSet :
+        /\ IupacSet[ComplBase(x)] = {ComplBase(b) : b \in IupacSet[x]}
+        /\ ComplBase(ComplBase(x)) = x
+        /\ ComplBase(LowerOf[x]) = LowerOf[ComplBase(x)]
+  /\ \A x, y \in DOMAIN IupacSet : IupacSet[x] = IupacSet[y] => x = y
 Drop(s, k) == IF k >= Len(s) THEN <<>> ELSE SubSeq(s, k + 1, Len(s))
 
 \* sequence of a member in the orientation of the traversal
